@@ -378,9 +378,31 @@ func encObsJSON(r *encRun, payload []byte, site encSite) map[string]any {
 	top := []string{}
 	var akeys []string
 	var avals []*encJV
+	// a decoder keeps ONE member per name: how many names of the record's object occur more than once
+	seen := map[string]int{}
+	dups := 0
+	for _, k := range root.keys {
+		seen[k]++
+		if seen[k] == 2 {
+			dups++
+		}
+	}
+	o["dups"] = dups
+	// `logger` is no reserved name of C04: when the record carries a top-level attribute keyed logger, the member
+	// that holds the logger's name (the first one that does) is the built-in one, every other one the attribute
+	userLogger := len(r.nodesAt[encPathKey([]int{97})]) > 0
+	builtinLogger := false
 	for i, k := range root.keys {
 		v := root.vals[i]
-		if !encReserved[k] {
+		isAttr := !encReserved[k]
+		if k == "logger" && userLogger {
+			if r.c.Name.Has && !builtinLogger && v.t == 's' && v.s == r.name {
+				builtinLogger = true
+			} else {
+				isAttr = true
+			}
+		}
+		if isAttr {
 			if id, _ := r.keyOf(k); id >= 0 {
 				top = append(top, "attr")
 			} else {
@@ -493,8 +515,47 @@ func encScanValue(s string, i int, stops string, lenient bool) (encTok, int, boo
 	return encTok{rep: "bare", text: s[i:j]}, j, true
 }
 
+// encScanToken reads one value the way a logfmt reader does: a double-quoted string, or a BARE value that ends
+// at the next blank.  The text of a bare token that starts with '[' must read as a list [e1,...,en] as a whole
+// (rep "list"); any other bare token may not carry quotes or control bytes.
+func encScanToken(s string, i int) (encTok, int, bool) {
+	if i < len(s) && s[i] == '"' {
+		return encScanValue(s, i, " ", false)
+	}
+	j := i
+	for j < len(s) && s[j] != ' ' {
+		j++
+	}
+	text := s[i:j]
+	if strings.HasPrefix(text, "[") {
+		if t, ok := encListOf(text); ok {
+			return t, j, true
+		}
+		return encTok{}, i, false
+	}
+	for k := 0; k < len(text); k++ {
+		if text[k] == '"' || text[k] < 0x20 || text[k] == 0x7f {
+			return encTok{}, i, false
+		}
+	}
+	return encTok{rep: "bare", text: text}, j, true
+}
+
+// encListOf: the WHOLE text reads [e1,...,en], every element a quoted string or a bare run.
+func encListOf(text string) (encTok, bool) {
+	if !strings.HasPrefix(text, "[") {
+		return encTok{}, false
+	}
+	t, n, ok := encScanValue(text, 0, " ", false)
+	if !ok || n != len(text) || t.rep != "list" {
+		return encTok{}, false
+	}
+	return t, true
+}
+
 // encParseLogfmt: space separated key=value; strict==false additionally accepts key-less values
-// (reported with noKey) so that the colored attribute section can be described even when broken.
+// (reported with noKey) so that the colored attribute section can be described even when broken
+// (C06 fixes no value syntax: there a list is scanned bracket to bracket).
 func encParseLogfmt(s string, strict bool) ([]encPair, bool) {
 	var out []encPair
 	i := 0
@@ -509,7 +570,14 @@ func encParseLogfmt(s string, strict bool) ([]encPair, bool) {
 			j++
 		}
 		if j < len(s) && s[j] == '=' && j > i {
-			v, nj, ok := encScanValue(s, j+1, " ", !strict)
+			var v encTok
+			var nj int
+			var ok bool
+			if strict {
+				v, nj, ok = encScanToken(s, j+1)
+			} else {
+				v, nj, ok = encScanValue(s, j+1, " ", true)
+			}
 			if !ok || (nj < len(s) && s[nj] != ' ') {
 				return out, false
 			}
@@ -539,6 +607,12 @@ func encMatchTok(n *encNode, kind string, conc any, text string, t encTok) bool 
 		return t.rep != "list" && strings.Contains(t.text, text)
 	case "int", "uint", "float", "bool", "complex", "duration", "time", "nil":
 		return t.rep != "list" && encTextEq(kind, conc, t.text)
+	}
+	if _, ok := encSliceElem[kind]; ok && t.rep == "quoted" {
+		// the whole list written as ONE quoted value: its text is the list
+		if lt, ok := encListOf(t.text); ok {
+			t = lt
+		}
 	}
 	if ek, ok := encSliceElem[kind]; ok && t.rep == "list" {
 		if len(t.elems) != len(n.elem) {
